@@ -30,7 +30,7 @@ const (
 )
 
 // VLinStep runs one operation on a stack/queue whose abstract content, listed in removal order, is pre.
-func VLinStep(q VLin, pre []int) {
+func VLinStep(q VLin, pre []int) []int {
 	op := v.CfgOr("op", -1)
 	if op < 0 {
 		op = v.Split(v.IntIn("op", 0, VLinCount-1), 0, VLinCount-1)
@@ -100,5 +100,15 @@ func VLinStep(q VLin, pre []int) {
 	v.Assert(q.C.Empty() == (sz == 0), "C15:empty")
 	if q.Full != nil {
 		v.Assert(q.Full() == (sz == q.Cap), "C05:full")
+	}
+	return want
+}
+
+// VLinHistory: D operations in a row from a freshly constructed stack/queue.
+func VLinHistory(q VLin) {
+	var seq []int
+	D := v.CfgOr("D", 3)
+	for i := 0; i < D; i++ {
+		seq = VLinStep(q, seq)
 	}
 }
